@@ -79,6 +79,12 @@ class SetupEnv:
     def assume(self, b):
         self.p.assume(b)
 
+    def fork(self, name):
+        """case split in the setup (e.g. optional argument given / not given): Python bool, both cases explored"""
+        b = z3.Bool(name)
+        self.ctx.inputs[name] = V.VBool(b)
+        return self.p.branch(b, f"case:{name}")
+
     def assume_shape_if(self, guard, shape, term):
         """conditional shape assumption: guard => shape(term); element facts are registered under the guard"""
         from .shapes import _guarded_on_assume
